@@ -1816,6 +1816,11 @@ class _Commute(ast.NodeTransformer):
         if isinstance(node.func, ast.Name) and node.func.id == 'len' and len(node.args) == 1 and not node.keywords \
                 and isinstance(node.args[0], ast.Attribute) and node.args[0].attr == 'shape':
             return ast.Attribute(value=node.args[0].value, attr='ndim', ctx=ast.Load())   # len(a.shape) is a.ndim
+        if isinstance(node.func, ast.Attribute) and node.func.attr == 'reshape' and not node.keywords and len(node.args) >= 2 \
+                and isinstance(node.args[0], ast.Starred) and isinstance(node.args[0].value, ast.Attribute) and node.args[0].value.attr == 'shape' \
+                and not any(isinstance(a_, ast.Starred) for a_ in node.args[1:]):
+            # x.reshape(*a.shape, n, ...) is x.reshape(a.shape + (n, ...)): ndarray.reshape takes the new shape as separate arguments or as one tuple
+            node.args = [ast.BinOp(left=node.args[0].value, op=ast.Add(), right=ast.Tuple(elts=list(node.args[1:]), ctx=ast.Load()))]
         return node
 
 
